@@ -337,60 +337,87 @@ def killdesc(kill):
     return "%s+%d#%d" % (kill["func"], kill["rel"], kill["nth"])
 
 
-def plan(conf, nticks, kill, resume, workdir, tag, census=False):
-    """One configuration x crash point (x optional resuming process): the jobs
-    for the launcher plus what the judge needs."""
+def plan_group(conf, nticks, crashes, resume_of, workdir, tag, census=False):
+    """One workload process of a configuration with all its crash points, plus the
+    processes that resume (reuse) on the state left at some of them / at the end."""
     prefix = os.path.join(workdir, "p-%s" % tag)
     os.makedirs(prefix)
     spec, ids, next_id = make_spec(conf, nticks, 0)
-    jobs = [{"spec": spec, "prefix": prefix, "kill": kill, "ids": ids, "census": census}]
-    resume = bool(resume and conf["reuse"])
-    snap = None
-    if resume:
-        spec2, ids2, _ = make_spec(conf, 12, next_id, resume=True)
-        jobs.append({"spec": spec2, "prefix": prefix, "kill": None, "ids": ids2})
-        snap = os.path.join(workdir, "s-%s" % tag)
-    return {"tag": tag, "jobs": jobs, "snap": snap, "conf": conf, "n": nticks, "kill": kill,
-            "resume": resume, "prefix": prefix}
+    cs = [dict(c, id="k%d" % j, snap=os.path.join(workdir, "s-%s-k%d" % (tag, j))) for j, c in enumerate(crashes)]
+    main = {"tag": tag, "spec": spec, "prefix": prefix, "crashes": cs, "ids": ids, "census": census}
+    jobs, resumes = [main], {}
+    if conf["reuse"]:
+        for cid in resume_of:
+            src = prefix if cid == "end" else cs[cid]["snap"]
+            cid = "end" if cid == "end" else cs[cid]["id"]
+            rprefix = os.path.join(workdir, "r-%s-%s" % (tag, cid))
+            spec2, ids2, _ = make_spec(conf, 12, next_id, resume=True)
+            rtag = "%s/%s" % (tag, cid)
+            jobs.append({"tag": rtag, "spec": spec2, "prefix": rprefix, "ids": ids2, "copy_from": src})
+            resumes[cid] = {"tag": rtag, "prefix": rprefix, "spec": spec2}
+    return {"tag": tag, "conf": conf, "n": nticks, "prefix": prefix, "spec": spec, "jobs": jobs,
+            "crashes": cs, "resumes": resumes}
 
 
-def judge(ctx, pl, runs, count=True):
-    """Decide one executed scenario.  runs = [(rc, report)] for the first and the resuming process."""
-    conf, kill, prefix, nticks = pl["conf"], pl["kill"], pl["prefix"], pl["n"]
-    spec = pl["jobs"][0]["spec"]
-    rc, report = runs[0]
-    casekey = {"conf": conf, "n": nticks, "kill": killdesc(kill), "resume": pl["resume"]}
-
-    def wit(extra):
-        d = {"config": conf, "ticks": nticks, "kill": kill, "resume": pl["resume"], "exit": rc,
-             "report_tail": [" ".join(t) for t in report if t[0] != "L"][-12:]}
-        d.update(extra)
-        return d
-
-    if rc is None or rc not in (0, 137):
+def judge_group(ctx, g, results, count=True):
+    conf, prefix = g["conf"], g["prefix"]
+    rc, report = results.get(g["tag"], (None, []))
+    if rc != 0:
         x = [t for t in report if t[0] == "X"]
         if x:
             info = json.loads(" ".join(x[0][1:]))
-            ctx.case(casekey, nontrivial=True)
-            ctx.fail("exception/" + info["key"], "the logger raised inside the child", wit({"traceback": info["tb"]}))
+            ctx.case({"conf": conf, "n": g["n"], "kill": "none", "resume": False}, nontrivial=True)
+            ctx.fail("exception/" + info["key"], "the logger raised inside the child",
+                     {"config": conf, "traceback": info["tb"]})
         else:
-            ctx.case(casekey, nontrivial=False)
-            ctx.inconclusive_case("child %s rc=%s" % (pl["tag"], rc))
+            ctx.inconclusive_case("workload process %s rc=%s" % (g["tag"], rc))
         return
     tree = [t for t in report if t[0] == "TREE"]
     from vf.core import REPO
     if not tree or not os.path.realpath(tree[0][1]).startswith(os.path.realpath(REPO)):
         ctx.inconclusive_case("child imported ioflo from %s" % (tree[0][1] if tree else "?"))
         return
-    if kill and kill["kind"] == "line" and not any(t[0] == "MON" for t in report):
-        ctx.inconclusive_case("line monitor not attached in child %s" % pl["tag"])
+    if any(c["kind"] == "line" for c in g["crashes"]) and not any(t[0] == "MON" for t in report):
+        ctx.inconclusive_case("line monitor not attached in child %s" % g["tag"])
         return
-    killed = rc == 137
-    livedir = logger_dir(report, prefix, spec)
-    # the state the first process left: the snapshot when a second process went on in the same directory
-    dirpath = livedir
-    if livedir is not None and pl["snap"] and os.path.isdir(pl["snap"]):
-        dirpath = os.path.join(pl["snap"], os.path.relpath(livedir, prefix))
+    # every crash point: the report up to it, the snapshot taken when the twin had died
+    for c in g["crashes"]:
+        casekey = {"conf": conf, "n": g["n"], "kill": killdesc(c), "resume": c["id"] in g["resumes"]}
+        at = [i for i, t in enumerate(report) if t[0] == "KILL" and t[1] == c["id"]]
+        if not at:
+            if count:
+                ctx.case(casekey, nontrivial=False)     # crash point never reached
+            continue
+        dead = [t for t in report[at[0]:at[0] + 3] if t[0] == "DEAD" and t[1] == c["id"]]
+        if not dead or dead[0][2] != "137" or not os.path.isdir(c["snap"]):
+            ctx.inconclusive_case("twin of %s/%s did not die with 137: %s" % (g["tag"], c["id"], dead))
+            continue
+        judge_state(ctx, g, casekey, c, report[:at[0]], c["snap"], g["resumes"].get(c["id"]), results, count)
+    casekey = {"conf": conf, "n": g["n"], "kill": "none", "resume": "end" in g["resumes"]}
+    judge_state(ctx, g, casekey, None, report, prefix, g["resumes"].get("end"), results, count)
+
+
+def judge_state(ctx, g, casekey, kill, report, root, resume, results, count):
+    """Decide the files under ``root`` against the report up to that point.
+    kill None = state after a normal end."""
+    conf, prefix, spec = g["conf"], g["prefix"], g["spec"]
+    killed = kill is not None
+
+    def wit(extra):
+        d = {"config": conf, "ticks": g["n"], "kill": {k: v for k, v in kill.items() if k != "snap"} if kill else None,
+             "resumed": resume is not None,
+             "report_tail": [" ".join(t) for t in report if t[0] not in ("L", "T", "DEAD", "SNAP")][-12:]}
+        d.update(extra)
+        return d
+
+    rel = None
+    for tok in report:
+        if tok[0] == "P" and len(tok) > 1 and tok[1]:
+            rel = os.path.relpath(tok[1], prefix)
+    if rel is None:
+        dirs = logx.find_logger_dirs(root, spec["house"], spec["logger"])
+        rel = os.path.relpath(dirs[-1], root) if dirs else None
+    dirpath = os.path.join(root, rel) if rel else None
     models = {n: fresh_model(conf["keep"]) for n in LOGS}
     st = replay(report, models)
     nw = sum(s["w"] for s in st.values())
@@ -407,8 +434,8 @@ def judge(ctx, pl, runs, count=True):
     else:
         ctx.hit("normal_ends")
         ctx.check(any(t[0] == "END" for t in report), "harness/no-end", "child exited 0 without END", lambda: wit({}))
-    ctx.hit("rotations_observed", sum(s["rot"] for s in st.values()))
-    ctx.hit("flushes_observed", sum(s["flushes"] for s in st.values()))
+        ctx.hit("rotations_observed", sum(s["rot"] for s in st.values()))
+        ctx.hit("flushes_observed", sum(s["flushes"] for s in st.values()))
     if dirpath is None or not os.path.isdir(dirpath):
         # killed before the directory was made: nothing written, nothing to lose
         ctx.check(nw == 0, "crash/no-directory-but-records-written", "records reported but no log directory", lambda: wit({}))
@@ -417,7 +444,7 @@ def judge(ctx, pl, runs, count=True):
     for name in LOGS:
         disk = read_disk(dirpath, name, conf["keep"])
         disks[name] = disk
-        w = (lambda name: (lambda extra: wit(dict(extra, dir=os.path.relpath(livedir, prefix)))))(name)
+        w = (lambda name: (lambda extra: wit(dict(extra, dir=rel))))(name)
         generic_invariants(ctx, name, disk, conf, w)
         if killed:
             crash_oracle(ctx, name, disk, models[name], st[name], w)
@@ -428,13 +455,9 @@ def judge(ctx, pl, runs, count=True):
     ctx.check(not extra_files, "rotation/unexpected-file", "the log directory holds a file outside the rotation set",
               lambda: wit({"files": extra_files}))
 
-    if not pl["resume"]:
+    if resume is None:
         return
-    if len(runs) < 2:
-        ctx.inconclusive_case("resume of %s did not run" % pl["tag"])
-        return
-    rc2, report2 = runs[1]
-    spec2 = pl["jobs"][1]["spec"]
+    rc2, report2 = results.get(resume["tag"], (None, []))
     models2 = {n: model_from_disk(disks[n]) for n in LOGS}
     empty_main = [n for n in LOGS if disks[n][0] is not None and disks[n][0]["size"] == 0]
     if rc2 != 0:
@@ -444,16 +467,20 @@ def judge(ctx, pl, runs, count=True):
             ctx.fail("exception-on-resume/" + info["key"], "the logger raised when resuming in the same directory",
                      wit({"traceback": info["tb"]}))
         else:
-            ctx.inconclusive_case("resume child %s rc=%s" % (pl["tag"], rc2))
+            ctx.inconclusive_case("resuming process %s rc=%s" % (resume["tag"], rc2))
         return
     ctx.hit("resumes")
     if killed:
         ctx.hit("resumes_after_kill")
     st2 = replay(report2, models2)
     ctx.hit("rotations_observed", sum(s["rot"] for s in st2.values()))
-    dir2 = logger_dir(report2, prefix, spec2)
-    ctx.check(dir2 == livedir, "reuse/different-directory", "with reuse the resumed logger used another directory",
-              lambda: wit({"first": livedir, "second": dir2}))
+    ctx.hit("flushes_observed", sum(s["flushes"] for s in st2.values()))
+    p2 = [t[1] for t in report2 if t[0] == "P" and len(t) > 1]
+    rel2 = os.path.relpath(p2[0], resume["prefix"]) if p2 else None
+    if not ctx.check(rel2 == rel, "reuse/different-directory", "with reuse the resuming logger used another directory",
+                     lambda: wit({"first": rel, "second": rel2})):
+        return
+    dir2 = os.path.join(resume["prefix"], rel2)
     for name in LOGS:
         disk2 = read_disk(dir2, name, conf["keep"])
 
@@ -475,21 +502,12 @@ def judge(ctx, pl, runs, count=True):
         exact_oracle(ctx, name, disk2, models2[name], w2)
 
 
-def run_plans(ctx, plans, workdir, tag, count=True):
-    """Execute the planned scenarios in one launcher and judge them."""
-    res, why = logx.run_batch(plans, workdir, tag, timeout=300)
+def run_group(ctx, g, workdir, count=True):
+    res, why = logx.run_batch(g["jobs"], workdir, g["tag"], timeout=300)
     if res is None:
-        ctx.inconclusive_case("launcher %s failed: %s" % (tag, why))
+        ctx.inconclusive_case("launcher %s failed: %s" % (g["tag"], why))
         return {}
-    for pl in plans:
-        runs = res.get(pl["tag"])
-        if not runs:
-            ctx.inconclusive_case("scenario %s not executed" % pl["tag"])
-            continue
-        judge(ctx, pl, runs, count=count)
-        shutil.rmtree(pl["prefix"], ignore_errors=True)
-        if pl["snap"]:
-            shutil.rmtree(pl["snap"], ignore_errors=True)
+    judge_group(ctx, g, res, count=count)
     return res
 
 
@@ -585,23 +603,19 @@ def worker(ctx, job):
     try:
         conf, n, ix = job["conf"], job["n"], job["index"]
         if job["mode"] == "ticks":
-            plans = []
-            for K in job["kills"]:
-                kill = None if K is None else {"kind": "tick", "tick": K}
-                resume = K is None or K <= 4 or K % 4 == 1
-                plans.append(plan(conf, n, kill, resume, workdir, "c%dk%s" % (ix, K)))
-            run_plans(ctx, plans, workdir, "t%d" % ix)
+            crashes = [{"kind": "tick", "tick": K} for K in job["kills"]]
+            resume_of = ["end"] + [j for j, K in enumerate(job["kills"]) if K in job["resume_ticks"]]
+            run_group(ctx, plan_group(conf, n, crashes, resume_of, workdir, "t%d" % ix), workdir)
             if job.get("sample"):
-                ctx.sample({"config": conf, "ticks": n, "crash_points": ["no kill"] + ["start of tick %d" % k for k in job["kills"] if k is not None][:5] + ["..."]})
+                ctx.sample({"config": conf, "ticks": n, "crash_points": ["no kill"] + ["start of tick %d" % k for k in job["kills"]][:5] + ["..."]})
         elif job["mode"] == "lines":
-            cplan = plan(conf, n, None, False, workdir, "c%dcensus" % ix, census=True)
-            res = run_plans(ctx, [cplan], workdir, "census%d" % ix, count=job["part"] == 0)
-            rep = res.get(cplan["tag"], [(None, [])])[0][1]
-            pts, cnt = line_points(rep)
+            cg = plan_group(conf, n, [], [], workdir, "census%d" % ix, census=True)
+            res = run_group(ctx, cg, workdir, count=job["part"] == 0)
+            pts, cnt = line_points(res.get(cg["tag"], (None, []))[1])
             ctx.hit("census_lines", len(cnt))
             mine = pts[job["part"]::job["parts"]]
-            plans = [plan(conf, n, kill, j % 3 == 0, workdir, "c%dl%d" % (ix, j)) for j, kill in enumerate(mine)]
-            run_plans(ctx, plans, workdir, "l%d" % ix)
+            resume_of = [j for j in range(len(mine)) if j % 8 == 0]
+            run_group(ctx, plan_group(conf, n, mine, resume_of, workdir, "l%d" % ix), workdir)
             if job["part"] == 0:
                 ctx.sample({"config": conf, "line_crash_points": len(pts), "first": pts[:4],
                             "executed_lines_per_function": {fn: sum(1 for (f, r) in cnt if f == fn) for fn in logx.LINE_TARGETS}})
@@ -614,18 +628,18 @@ def worker(ctx, job):
 def run(ctx):
     n = ctx.pick(24, 40)
     allc = all_configs()
-    confs = pick_configs(ctx.subrng("c23-configs"), ctx.pick(32, 112))
+    confs = pick_configs(ctx.subrng("c23-configs"), ctx.pick(12, 64))
     jobs = []
     if not ctx.quick:       # the longest jobs first
-        lconfs = [c for c in confs if c["keep"] >= 1 and c["cycle"] <= 3 * DT][:8]
+        lconfs = [c for c in confs if c["keep"] >= 1 and c["cycle"] <= 3 * DT][:5]
         for conf in lconfs:
-            for part in range(2):
-                jobs.append({"mode": "lines", "conf": conf, "n": 16, "part": part, "parts": 2})
+            for part in range(4):
+                jobs.append({"mode": "lines", "conf": conf, "n": 16, "part": part, "parts": 4})
         for conf in [c for c in confs if c["keep"] >= 1][:2] + [c for c in confs if c["keep"] == 0][:1]:
             jobs.append({"mode": "strace", "conf": conf, "n": 24})
     for ci, conf in enumerate(confs):
-        kills = [None] + list(range(1, n))
-        jobs.append({"mode": "ticks", "conf": conf, "n": n, "kills": kills, "sample": ci == 0})
+        jobs.append({"mode": "ticks", "conf": conf, "n": n, "kills": list(range(1, n)), "sample": ci == 0,
+                     "resume_ticks": ctx.pick([1, 2, 9], [1, 2, 3, 9, 17, 25, 33])})
     ctx.shard(jobs, timeout=ctx.pick(150, 340))
     ctx.extra["configurations"] = len(confs)
     ctx.extra["configuration_space"] = len(allc)
@@ -635,11 +649,12 @@ def run(ctx):
     ctx.floor("kills_at_tick", nk // 2)
     ctx.floor("normal_ends", len(confs) // 2)
     ctx.floor("distinct_nontrivial", nk // 2)
-    ctx.floor("rotations_observed", nk)
-    ctx.floor("flushes_observed", nk)
+    ctx.floor("rotations_observed", len(confs) * 3)      # counted once per process (normal end / resumed), not per kill
+    ctx.floor("flushes_observed", len(confs) * 20)
     ctx.floor("records_parsed", nk * 4)
     ctx.floor("kills_with_unflushed_records", nk // 20)
-    ctx.floor("resumes", len(confs))
+    ctx.floor("resumes", ctx.pick(4, 40))
+    ctx.floor("resumes_after_kill", ctx.pick(3, 30))
     if not ctx.quick:
         ctx.floor("kills_at_line", 200)
         ctx.floor("kills_mid_rotation", 50)
